@@ -37,6 +37,7 @@ CONSTANTS
     FixD1,      \* dedup key of a Horner step includes its accumulator
     FixD2,      \* dedup keeps a duplicate whose out is already defined
     FixFuse,    \* fusion refuses a mul whose result slot is defined elsewhere
+    FixAcc,     \* the use count of the fusion pass includes the accumulator a Horner step reads (fix 891f799)
     NoFold      \* enumerate only calls that create a new node (a folded / CSE'd call returns an
                 \* existing id, so the program is equivalent to a shorter one)
 
@@ -415,6 +416,7 @@ Dedup ==
 \* defs: function slot -> [idx, kind, a, b] built by scan_defs; kind in Const/Mul/Other
 UseCount(os, s) ==
     LET cnt(op) == (IF op.a = s THEN 1 ELSE 0) + (IF op.b = s THEN 1 ELSE 0) + (IF op.c = s THEN 1 ELSE 0)
+                   + (IF FixAcc /\ op.k = "Horner" /\ op.io = s THEN 1 ELSE 0)
         RECURSIVE Sum(_)
         Sum(i) == IF i > Len(os) THEN 0 ELSE (IF IsAlu(os[i]) THEN cnt(os[i]) ELSE 0) + Sum(i + 1)
     IN Sum(1)
